@@ -216,6 +216,9 @@ var Steps = []Step{
 	st("c.out", "S", "S", "$Pset(&$y, $x)", dSet),
 	st("c.tup0", "S", "S", "$y, _ = $Ptwo0($x)", dTwo0),
 	st("c.tup1", "S", "S", "_, $y = $Ptwo1($x)", dTwo1),
+	st("c.tup2of3", "S", "S", "_, _, $y = $Pthree($x)", "three"),
+	st("c.tup3of4", "S", "S", "_, _, _, $y = $Pfour($x)", "four"),
+	st("c.tupWrap", "S", "S", "_, _, $y = $Pwrap3($x)", "three", "wrap3"),
 	st("c.tup1ok", "S", "S", "_, a$i := $Ptwo1any($x)\nv$i, ok$i := a$i.(string)\n_ = ok$i\n$y = v$i", dTwo1a),
 	st("c.variadic", "S", "S", "$y = $Plast(\"a\", $x)", dLast),
 	st("c.methV", "S", "S", "$y = $PK1{}.Echo($x)", dK1),
@@ -301,6 +304,9 @@ var Sources = []SourceForm{
 }
 
 func init() {
+	decl("three", "func $Pthree(s string) (string, string, string) { return \"a\", \"b\", s }")
+	decl("four", "func $Pfour(s string) (a, b, c, d string) {\n\td = s\n\treturn\n}")
+	decl("wrap3", "func $Pwrap3(s string) (string, string, string) { return $Pthree(s) }")
 	decl("sourceT", "func $PsourceT1() *$PT { return &$PT{F: rt.Source1()} }")
 	decl("srcM", "type $PSrc struct{}\nfunc (s $PSrc) Source3() string { return rt.Source3() }")
 	decl("snkM", "type $PSnk struct{}\nfunc (s *$PSnk) Sink4(x any) { rt.Sink4(x) }")
